@@ -19,7 +19,7 @@
 (*   the exact result.  Fields whose names start with "h" are hints        *)
 (*   (cofactors); when a hint does not verify, TLC falls back to its own   *)
 (*   binary long division, so a wrong hint can never cause a verdict.      *)
-(* The property is  Exact == fails = <<>>  at the end of the trace; the    *)
+(* The property is  Exact == nf = 0  at the end of the trace; the    *)
 (* list is printed (not used as an invariant) so that all failing events   *)
 (* of a chunk are reported and matched against known_findings.jsonl.       *)
 (***************************************************************************)
@@ -27,10 +27,11 @@ EXTENDS BigZ, Json, IOUtils, TLC
 
 Trc == ndJsonDeserialize(IOEnv.TRACE)
 
-VARIABLES l, fails
-vars == <<l, fails>>
+VARIABLES l, fails, nf
+vars == <<l, fails, nf>>
 
-MaxFails == 400
+(* at most MaxPerClass failing events are listed per (operation, reason); all are counted in nf *)
+MaxPerClass == 40
 
 ---------------------------------------------------------------------------
 (* decoding                                                                 *)
@@ -266,13 +267,20 @@ VShift(e) ==
                   <<RepOk(e.r) /\ RepOk(e.r2), "result does not compare equal to its own value">>,
                   <<e.ua, "operand modified">> >>)
 
-(* low k bits: exact (a mod 2^k) on non-negative values *)
+(* low k bits (builtin BIntShiftRem): a mod 2^k on non-negative values; for    *)
+(* a negative value the two's complement residue (Java, GMP) or the low bits   *)
+(* of |a| are accepted.  The reason names the circumstances of a wrong value.  *)
 VShiftRem(e) ==
   LET a == ZOf(e.a)  r == ZOf(e.r)
+      good == IF ~a.neg THEN Eq(r, ModPow2(a, e.k))
+              ELSE Eq(r, ModPow2(a, e.k)) \/ Eq(Abs(r), ModPow2(Abs(a), e.k))
+      circ == IF e.a.i = 1 /\ e.k >= 32 THEN "immediate operand and count >= 32"
+              ELSE IF e.k > Len0(a) THEN "count beyond the operand's length"
+              ELSE IF e.a.i = 0 /\ e.k % e.rx = 0 THEN "stored operand and count a multiple of the digit width"
+              ELSE "other"
   IN FirstFail(<< <<WfZ(e.a) /\ e.k >= 0, "malformed operand">>,
                   <<WfZ(e.r) /\ e.r.bad = 0, "result is not a valid digit vector">>,
-                  <<IF ~a.neg THEN Eq(r, ModPow2(a, e.k))
-                    ELSE Eq(r, ModPow2(a, e.k)) \/ Eq(Abs(r), ModPow2(Abs(a), e.k)), "wrong value">>,
+                  <<good, "wrong low bits: " \o circ>>,
                   <<RepOk(e.r), "result does not compare equal to its own value">>,
                   <<e.ua, "operand modified">> >>)
 
@@ -325,13 +333,15 @@ VPlacev(e) ==
 ---------------------------------------------------------------------------
 (* the trace machine                                                        *)
 
-Init == l = 1 /\ fails = <<>>
+Init == l = 1 /\ fails = <<>> /\ nf = 0
 
 IsOp(n) == l <= Len(Trc) /\ Trc[l].ev = "Op" /\ Trc[l].op = n
 
 Judge(v) ==
   /\ l' = l + 1
-  /\ fails' = IF v = "ok" \/ Len(fails) >= MaxFails THEN fails
+  /\ nf' = IF v = "ok" THEN nf ELSE nf + 1
+  /\ fails' = IF v = "ok" THEN fails
+              ELSE IF Len(SelectSeq(fails, LAMBDA f : f.op = Trc[l].op /\ f.why = v)) >= MaxPerClass THEN fails
               ELSE Append(fails, [ln |-> Trc[l].ln, op |-> Trc[l].op, rx |-> Trc[l].rx, why |-> v])
 
 Plus      == IsOp("plus")      /\ Judge(VArith(Trc[l], Add))
@@ -366,8 +376,8 @@ Fault == /\ l <= Len(Trc) /\ Trc[l].ev \in {"Fault", "Hang"}
          /\ Judge(IF Trc[l].ev = "Fault" THEN "fault (signal) inside the operation" ELSE "operation did not return")
 
 Finish == /\ l = Len(Trc) + 1
-          /\ PrintT(ToJson([n |-> Len(Trc), nfail |-> Len(fails), fails |-> fails]))
-          /\ l' = l + 1 /\ UNCHANGED fails
+          /\ PrintT(ToJson([n |-> Len(Trc), nfail |-> nf, fails |-> fails]))
+          /\ l' = l + 1 /\ UNCHANGED <<fails, nf>>
 
 Next == \/ Plus \/ Minus \/ Times \/ TimesPlus \/ Negate \/ AbsVal \/ Compare
         \/ Divide \/ Quo \/ Rem \/ Mod \/ GcdOp \/ SIPower \/ BIPower \/ PowerMod
@@ -380,5 +390,5 @@ TraceSpec == Init /\ [][Next]_vars
 (* operation, missing field) leaves the machine stuck before the end        *)
 TraceAccepted == TLCGet("stats").diameter = Len(Trc) + 2
 
-Exact == fails = <<>>
+Exact == nf = 0
 =============================================================================
